@@ -259,4 +259,20 @@ theorem drop_releases (a : Api) (hi : Inv a.s) (h : Nat) (hd : Handle) (hh : a.s
     exact ⟨hl2.symm, hheld⟩
   · simp [hheld] at hl2
 
+/-- a guard method at the level of the public call: it answers what the plain map answers, stores what the plain map stores
+under its own key, and touches no other key's value -/
+theorem op_plain (a : Api) (hi : Inv a.s) (h : Nat) (hd : Handle) (g : GOp) (hh : a.s.hs h = some hd) (hst1 : hd.st = .holding)
+    (hos : a.ownedBySusp h = false) :
+    (a.exec (.op h g)).2.res = .out (match g with | .key => Out.nat hd.key | _ => (specOp ((absSpec a.s).vals hd.key) g).2) ∧
+    absVal (a.exec (.op h g)).1.s hd.key = (specOp ((absSpec a.s).vals hd.key) g).1 ∧
+    ∀ k', k' ≠ hd.key → absVal (a.exec (.op h g)).1.s k' = absVal a.s k' := by
+  have hs := gop_out_spec a.s hi h hd g hh hst1
+  unfold Api.exec
+  simp only [hos, Bool.false_eq_true, ↓reduceIte]
+  refine ⟨by rw [hs.1]; cases g <;> rfl, hs.2, ?_⟩
+  intro k' hk
+  apply absVal_gop_other
+  simp [hh, hkey]
+  exact fun e => hk e.symm
+
 end Lockable
